@@ -33,6 +33,7 @@ func (Prop) Plan(t vp.Tier) []vp.Stage {
 		{Name: "iter", NBatches: 16, TimeoutS: 1200, Env: env},
 		{Name: "random", NBatches: 16, TimeoutS: 1200, Env: env},
 		{Name: "cpu", NBatches: 4, TimeoutS: 900, Env: env},
+		{Name: "sets", NBatches: 8, TimeoutS: 900, Env: env},
 	}
 }
 
@@ -60,6 +61,8 @@ func (Prop) Describe(t vp.Tier) vp.Description {
 			"iter stage: every pattern of <= 3 tokens (thorough: and one in six of the 4-token ones, %d tokens at most) x every subject of length <= %d through gmatch (with and without init) and gsub with string, table and function replacements and the n argument. "+
 			"random stage: generated longer patterns (all classes %%a %%c %%d %%g %%l %%p %%s %%u %%w %%x and complements, sets with ranges/classes/^, captures, position captures, back-references, %%b, %%f, anchors), "+
 			"byte-level mutations of them and strings of magic characters, against random subjects, through Go and Lua; plus the class tables byte by byte. "+
+			"sets stage: [x-y] and [^x-y] for every pair x <= y of 24 boundary bytes (both sides of every 32/64-byte block boundary, ends of the digit and letter runs, 0, 255) against every one-byte subject, " +
+			"%%f[x-y] for the wide ranges against every two-byte subject over those bytes, every class %%a..%%x and complement alone and inside sets against all 256 bytes, judged by a direct model (x <= c <= y; C-locale ctype). " +
 			"cpu stage: long and pathological matches inside CPU-limited contexts. Every answer is compared with patmodel (positions, captures incl. position captures, gsub result and count, gmatch sequence, error / no error); "+
 			"malformed patterns must give a Lua error or the 'error item not reached' answer, never a Go panic. "+
 			"A case counts as non-trivial when the pattern is well formed, has >= 2 items and matched at least one subject (exhaustive/iter: distinct by pattern; random: distinct by pattern+subject).",
@@ -94,6 +97,8 @@ func (Prop) RunBatch(c *vp.Child) {
 		runRandom(c)
 	case "cpu":
 		runCPU(c)
+	case "sets":
+		runSets(c)
 	}
 }
 
